@@ -142,6 +142,43 @@ func mirrorChain(c *mirrorCase, runes []rune) (detail, incon string, n int) {
 	if fi != "" || ri != "" {
 		return "", fi + ri, 0
 	}
+	// the find-all byte indexes of the two images, mapped back to rune spans through independent
+	// index maps (the right-to-left image walks its rune-to-byte table downwards)
+	if validRunes(runes) {
+		toRunes := func(s string, pairs [][]int) ([][2]int, string) {
+			im := mon.NewIndexMap(s)
+			at := map[int]int{}
+			for i, o := range im.Off {
+				at[o] = i
+			}
+			var out [][2]int
+			for _, p := range pairs {
+				a, ok1 := at[p[0]]
+				b, ok2 := at[p[1]]
+				if !ok1 || !ok2 {
+					return nil, fmt.Sprintf("byte span %v of FindAllStringIndex(%q) does not lie on rune boundaries", p, s)
+				}
+				out = append(out, [2]int{a, b - a})
+			}
+			return out, ""
+		}
+		fs, rs := string(runes), string(gen.ReverseRunes(runes))
+		fa, e1 := c.fre.FindAllStringIndex(fs, -1)
+		ra, e2 := c.rre.FindAllStringIndex(rs, -1)
+		if e1 == nil && e2 == nil {
+			fr, bad1 := toRunes(fs, fa)
+			rr, bad2 := toRunes(rs, ra)
+			if bad1 != "" || bad2 != "" {
+				return bad1 + bad2, "", len(f)
+			}
+			for i := range rr {
+				rr[i][0] = len(runes) - rr[i][0] - rr[i][1]
+			}
+			if fmt.Sprint(fr) != fmt.Sprint(rr) {
+				return fmt.Sprintf("FindAllStringIndex differs: %q on %q gives rune spans %v; its mirror image %q (RightToLeft) on the reversed text gives, mapped back, %v", c.fwd.Src, fs, fr, c.rev.Src, rr), "", len(f)
+			}
+		}
+	}
 	if strings.Join(f, " | ") != strings.Join(r, " | ") {
 		return fmt.Sprintf("FindNextMatch chains differ: %q on %q gives [%s]; its mirror image %q (RightToLeft) on the reversed text gives, mapped back, [%s]", c.fwd.Src, string(runes), strings.Join(f, " | "), c.rev.Src, strings.Join(r, " | ")), "", len(f)
 	}
